@@ -25,9 +25,11 @@ T_Variants == {"a", "b"}
 T_SignerSets == {{}, {"ALPHA"}, {"ALPHA", "CMT"}, {"CMT"}, {"X"}}
 
 \* ---- C05-centred configurations: fees, mints, committee sizes; one name, no NNS environment ----
-F_Owners  == {"o1", "o2"}
-F_Cids    == {"c1", "c2"}
-F_COwner  == [c \in F_Cids |-> IF c = "c2" THEN "o2" ELSE "o1"]
+F_Owners  == {"o1"}
+F_Cids    == {"c1"}
+F_COwner  == [c \in F_Cids |-> "o1"]
+FT_Cids   == {"c1", "c2"}
+FT_COwner == [c \in FT_Cids |-> "o1"]
 F_Names   == {"n1"}
 F_Variants == {"a"}
 F_SignerSets == {{}, {"ALPHA"}}
@@ -70,6 +72,7 @@ P_C04 == [][LET g2 == GNext(g, ev') IN
 P_C05 == [][C05_Exact(ev') /\ C05_MustPay(ev') /\ C05_Atomic(ev')]_mcvars
 
 \* state invariants (the step predicates above keep them)
+BoundedA == \A k \in 1..n : abal[k] <= MaxBal
 Inv_Index == oidx = {c \in Cids : x[c] # None}
 Inv_Tomb  == \A c \in tomb : x[c] = None
 Inv_Ghost == /\ Live(g) = {c \in Cids : x[c] # None} /\ g.dead = tomb
